@@ -5,6 +5,7 @@
 pub mod alloc;
 pub mod ctx;
 pub mod guard;
+pub mod iterproto;
 pub mod refmodel;
 
 pub use ctx::{Ctx, FinalGuard, Tier};
